@@ -65,7 +65,7 @@ PATH_TOL = 1e-9        # dogleg: distance to the polyline <= PATH_TOL * max(|cp|
 MAX_COND_M = 1e6       # conditioning of the preconditioner matrices generated (norm measurement is exact to cond*eps)
 RADIUS_MIN, RADIUS_MAX = 1e-15, 1e15   # absolute radii generated (no overflow of squared quantities)
 REL_RADIUS_MIN, REL_RADIUS_MAX = 1e-6, 1e6   # radius / (|g|/|H|): the twelve decades of the quantifier
-TRE_TIMEOUT = 5.0      # seconds before a treigen.solve call is declared non-terminating
+TRE_TIMEOUT = 5.0      # CPU seconds before a treigen.solve call is declared non-terminating
 
 ASSUMPTIONS = [
     "radii: Delta / (|g|/|H|) in [1e-6, 1e6] (configured norm), absolute values in [1e-15, 1e15]; cond(H) <= 1e8 for "
@@ -885,15 +885,16 @@ def call_treigen(A, b, delta):
             treigen.solve(np.eye(n), np.ones(n), 0.1)
         except Exception:
             pass
-    old = signal.signal(signal.SIGALRM, _alarm)
-    signal.setitimer(signal.ITIMER_REAL, TRE_TIMEOUT)
+    # CPU-time timer of this process (not wall clock): machine load cannot turn a terminating call into a "timeout"
+    old = signal.signal(signal.SIGVTALRM, _alarm)
+    signal.setitimer(signal.ITIMER_VIRTUAL, TRE_TIMEOUT)
     try:
         with Silence():
             s = treigen.solve(np.array(A), np.array(b), float(delta))
         return onp.array(s, dtype=float)
     finally:
-        signal.setitimer(signal.ITIMER_REAL, 0)
-        signal.signal(signal.SIGALRM, old)
+        signal.setitimer(signal.ITIMER_VIRTUAL, 0)
+        signal.signal(signal.SIGVTALRM, old)
 
 
 def run_tre(c):
